@@ -1,5 +1,7 @@
 import Adlt.Buf.Inv
 import Adlt.Dlt.Window
+import Adlt.Dlt.Chunked
+import Adlt.Dlt.Position
 /-! # C04 — parsing depends only on the bytes, not on read chunking or position (reader part)
 
 Model: `Lmk.LM` (= `LowMarkBufReader` over a source with an arbitrary short-read schedule). `orig` is the
@@ -56,6 +58,125 @@ theorem C04_min_buffer_suffices (i : Nat) (w rest : Dp.Bytes) (h : 16 + 65535 + 
       have := l1.toNat_lt; have := l2.toNat_lt; omega
     · omega
   exact Dp.parse_window i w rest (by omega) (by omega)
+
+/-! ## the low-water mark and the end-of-data latch -/
+
+/-- a reader state as every operation sequence produces it from `new` with an admissible capacity -/
+structure C04Ready (orig : List Nat) (s : LM) : Prop where
+  inv : Inv orig s
+  eofOk : EofOk s
+  room : s.lowMark + cacheLine ≤ s.buf.length
+
+/-- `new` with `capacity ≥ low mark + 4096` is ready, and `fill`, `consume`, `read` and `seek` keep it so: in particular
+    the end-of-data latch is only ever set when the source is exhausted -/
+theorem C04_ready_invariant (orig : List Nat) (capacity lowMark : Nat) (sched : List Nat) (hc : lowMark + Gen.cacheLineSize ≤ capacity) :
+    C04Ready orig (LM.new capacity lowMark orig sched) ∧
+    (∀ s, C04Ready orig s → C04Ready orig s.fill) ∧ (∀ s n, C04Ready orig s → C04Ready orig (s.consume n)) ∧
+    (∀ s k, C04Ready orig s → C04Ready orig (s.read k).2) ∧ (∀ s n, C04Ready orig s → C04Ready orig (s.seekStart n).2) := by
+  have hfill : ∀ s, C04Ready orig s → C04Ready orig s.fill := by
+    intro s h
+    obtain ⟨_, g2, g3⟩ := fill_good orig s h.inv h.eofOk h.room
+    exact ⟨(fill_inv orig s h.inv).1, g2, by rw [g3, fill_buflen orig s h.inv]; exact h.room⟩
+  have hcons : ∀ s n, C04Ready orig s → C04Ready orig (s.consume n) :=
+    fun s n h => ⟨consume_inv orig s n h.inv, h.eofOk, h.room⟩
+  have hnew : C04Ready orig (LM.new capacity lowMark orig sched) := by
+    refine ⟨new_inv capacity lowMark orig sched, fun h => ?_, ?_⟩
+    · cases h
+    · show lowMark + cacheLine ≤ (List.replicate capacity 0).length
+      simpa [cacheLine] using hc
+  refine ⟨hnew, hfill, hcons, ?_, ?_⟩
+  · intro s k h
+    exact hcons _ _ (hfill s h)
+  · intro s n h
+    have hi := (seekStart_spec orig s n h.inv).1
+    unfold LM.seekStart at hi ⊢
+    simp only [] at hi ⊢
+    have ht : C04Ready orig (if s.cap == 0 then s.fill else s) := by split; exact hfill s h; exact h
+    generalize (if s.cap == 0 then s.fill else s) = t at *
+    split
+    · exact ht
+    · split
+      · exact ht
+      · rename_i h1 h2
+        simp only [h1, h2, if_false] at hi
+        exact ⟨hi, ht.eofOk, ht.room⟩
+
+/-- **low-water mark**: under every read schedule, `fill_buf` offers at least the low mark, or everything the source has left;
+    so an empty window means the source is exhausted (end-of-data is never signalled early) -/
+theorem C04_low_mark_kept (orig : List Nat) (s : LM) (h : C04Ready orig s) :
+    min s.lowMark (orig.length - (s.absPos + s.pos)) ≤ s.fill.window.length ∧
+    (s.fill.window = [] → 0 < s.lowMark → s.absPos + s.pos = orig.length) := by
+  obtain ⟨f1, f2, _⟩ := fill_inv orig s h.inv
+  obtain ⟨g1, _, g3⟩ := fill_good orig s h.inv h.eofOk h.room
+  have hw := good_window orig s.fill f1 g1
+  rw [f2, g3] at hw
+  refine ⟨hw, ?_⟩
+  intro he hl
+  rw [he] at hw
+  have hio := h.inv.inOrig
+  have hp := h.inv.posLe
+  simp only [List.length_nil] at hw
+  omega
+
+/-- `read` never signals end-of-data early either: zero bytes for a non-empty request means the source is exhausted -/
+theorem C04_read_not_early (orig : List Nat) (s : LM) (k : Nat) (h : C04Ready orig s) (hk : 0 < k) (hl : 0 < s.lowMark)
+    (h0 : (s.read k).1 = []) : s.absPos + s.pos = orig.length := by
+  apply (C04_low_mark_kept orig s h).2 _ hl
+  unfold LM.read at h0
+  simp only [] at h0
+  cases hw : s.fill.window with
+  | nil => rfl
+  | cons x t => rw [hw] at h0; cases k with
+    | zero => omega
+    | succ k => simp at h0
+
+/-! ## chunking and position -/
+
+/-- **chunking independence**: the iterator over the buffered reader - for every source, every schedule of short reads
+    (down to one byte at a time), every low mark of at least `DLT_MIN_PARSE_BUFFER_SIZE`, every capacity of at least low mark
+    + 4096, every start index - yields exactly the messages, byte counters and framing latches of the iterator over the
+    whole byte string (`fuel` = the same number of loop passes on both sides) -/
+theorem C04_chunking_independent (orig : List Nat) (capacity lowMark : Nat) (sched : List Nat) (fuel : Nat) (s : Dp.ItSt)
+    (hl : 16 + 65535 + Gen.dltParseLookAhead ≤ lowMark) (hc : lowMark + Gen.cacheLineSize ≤ capacity) :
+    Dp.iterLM fuel s (LM.new capacity lowMark orig sched) = Dp.iterAll fuel s (Dp.bytesOf orig) := by
+  have hr := (C04_ready_invariant orig capacity lowMark sched hc).1
+  have := Dp.iterLM_eq orig fuel s (LM.new capacity lowMark orig sched) ⟨hr.inv, hr.eofOk, hl, hr.room⟩
+  rw [this]
+  show Dp.iterAll fuel s (Dp.bytesOf (orig.drop (0 + 0))) = _
+  simp
+
+/-- ... and from every state the reader can be in (after any fills, consumes, reads and accepted seeks): the iterator
+    continues with the source from the logical position on -/
+theorem C04_chunking_independent_from (orig : List Nat) (r : LM) (fuel : Nat) (s : Dp.ItSt) (h : C04Ready orig r)
+    (hl : 16 + 65535 + Gen.dltParseLookAhead ≤ r.lowMark) :
+    Dp.iterLM fuel s r = Dp.iterAll fuel s (Dp.bytesOf (orig.drop (r.absPos + r.pos))) :=
+  Dp.iterLM_eq orig fuel s r ⟨h.inv, h.eofOk, hl, h.room⟩
+
+/-- **position independence**: behind any number of complete messages (well-formed, accepted where they stand) the iterator
+    continues on the suffix - arbitrary bytes - exactly like an iterator started on the suffix alone with storage framing
+    latched; the messages found there are the same up to renumbering by the number of messages in front -/
+theorem C04_position_independent (rs : List Dp.RawMsg) (fuel : Nat) (s : Dp.ItSt) (d : Dp.Bytes)
+    (hs : s.detSerial = false) (hp : Dp.PrefixOk rs d) (hne : rs ≠ []) :
+    (Dp.iterAll (fuel + rs.length) s (Dp.encAll rs ++ d)).1 =
+      Dp.msgsOf s.index rs ++ (Dp.iterAll fuel { s with detStorage := true } d).1.map (Dp.Msg.shift rs.length) ∧
+    (Dp.iterAll (fuel + rs.length) s (Dp.encAll rs ++ d)).2 =
+      (Dp.iterAll fuel { s with detStorage := true } d).2.shift rs.length (Dp.encAll rs).length := by
+  have h1 := Dp.iter_prefix rs fuel s d hs hp
+  obtain ⟨a, b, c, e, f⟩ := Dp.after_fields rs s d hp
+  have hst : Dp.after s rs = ({ s with detStorage := true } : Dp.ItSt).shift rs.length (Dp.encAll rs).length := by
+    have hne' : rs.isEmpty = false := by cases rs with | nil => exact absurd rfl hne | cons _ _ => rfl
+    rw [hne'] at f
+    cases hA : Dp.after s rs
+    rw [hA] at a b c e f
+    simp only [Dp.ItSt.shift, Dp.ItSt.mk.injEq]
+    simp only [] at a b c e f
+    exact ⟨a, b, c, by simpa using f, e⟩
+  rw [h1, hst, Dp.iterAll_shift]
+  exact ⟨rfl, rfl⟩
+
+/-- non-vacuity: a minimal well-formed message is a complete prefix of a stream that continues with garbage -/
+example : Dp.PrefixOk [{ sh := [0,0,0,0,0,0,0,0,69,67,85,49], htyp := 0x20, mcnt := 0, add := [], payload := [] }] [1, 2, 3, 4, 5] := by
+  refine ⟨by decide, by decide, trivial⟩
 
 theorem C04_consts : Gen.cacheLineSize = 4096 ∧ Gen.dltParseLookAhead = 4 := by decide
 
